@@ -656,6 +656,8 @@ impl Prop for C08 {
             publisher: 2,
             restart: 0,
             session_reset: 1,
+            // the snapshot task (stores snapshots and truncates the write-ahead log of the repository content)
+            snapshot: 7,
             hold_signer: 0,
             check: 0,
             max_advance: 2 * 86400,
